@@ -116,6 +116,7 @@ def main():
     if extra_kw:
         chk.note("keywords without oracle entry (not checked): %s" % extra_kw)
     fails = []
+    group_marks = []
     n_calls = 0
     t0 = time.time()
 
@@ -178,6 +179,9 @@ def main():
             for grp, pattern, unit, what in ORACLE:
                 exp = expected(base, what)
                 ref_calls = None
+                n_before = len(fails)
+                if exp is not None:
+                    group_marks.append((tag, grp[0], n_before))
                 for kw in grp:
                     if (tag, kw) not in res:
                         continue
@@ -230,6 +234,10 @@ def main():
         want_names = sorted(["c%d%ds_tp_gpa.txt" % c_(k[1:]).v for k in keys] + ["v_tp_ang3.txt", "p_tv_gpa.txt", "G_V_tv_gpa.txt"])
         if names != want_names or any((c[0] == "tp") != ("_tp_" in c[1]) for c in wo):
             fails.append("write_output dispatch: wrote %s" % names[:6])
+    for i, (tag, g0, nb) in enumerate(group_marks):
+        ne = group_marks[i + 1][2] if i + 1 < len(group_marks) else len(fails)
+        chk.obligation("%s base / keyword group %s: name, payload x unit factor, axes, aliases" % (tag, g0),
+                       "unsat" if (res is not None and ne == nb) else "sat", kind="wiring")
     chk.obligation("every keyword and alias x both bases: file name, payload == in-memory quantity x unit factor, axes, aliases identical, "
                    "overrides, write_output dispatch [%d table writes inspected]" % n_calls,
                    "unsat" if (res is not None and not fails) else "sat", seconds=round(time.time() - t0, 2), kind="wiring", detail=fails[:5])
